@@ -355,7 +355,7 @@ func c02(c *Ctx) {
 }
 
 func sameAccess(a, b ssa.Value) bool {
-	ra, pa, oka := flow.AccessPath(underIface(a))
-	rb, pb, okb := flow.AccessPath(underIface(b))
+	ra, pa, oka := flow.AccessPathC(underIface(a))
+	rb, pb, okb := flow.AccessPathC(underIface(b))
 	return oka && okb && pa == pb && (ra == rb || flow.Root(ra) == flow.Root(rb))
 }
